@@ -188,17 +188,22 @@ async function run (code, opts = {}) {
   if (opts.hooks === 'identity') {
     sandbox._ddiast = new Proxy({}, { get: (t, k) => typeof k === 'symbol' ? undefined : (res) => res, has: () => true })
   } else if (opts.hooks === 'record') {
-    sandbox._ddiast = new Proxy({}, {
+    const recorder = (site) => new Proxy({}, {
       get: (t, k) => typeof k === 'symbol'
         ? undefined
-        : function (res, ...ops) {
-          const rec = { name: String(k), res, ops, at: world.events() }
-          hookCalls.push(rec)
-          if (opts.onHook) world.mute(() => opts.onHook(rec, world))
-          return res
-        },
+        // `_ddiast.$s[17].name(...)`: the same recording hooks, tagged with the number of the call site (the caller patches
+        // the text of the program it runs; see C03's marked-operand oracle)
+        : (k === '$s' && site === undefined)
+            ? new Proxy({}, { get: (t2, id) => typeof id === 'symbol' ? undefined : recorder(parseInt(id, 10)) })
+            : function (res, ...ops) {
+              const rec = { name: String(k), res, ops, at: world.events(), site }
+              hookCalls.push(rec)
+              if (opts.onHook) world.mute(() => opts.onHook(rec, world))
+              return res
+            },
       has: () => true
     })
+    sandbox._ddiast = recorder(undefined)
   } else if (opts.hooks && typeof opts.hooks === 'object') {
     sandbox._ddiast = opts.hooks
   }
